@@ -123,6 +123,18 @@ def run(ctx):
                                        "close 2", "new 3 r - - -", "keys 3"] + [f"get 3 {hx(k)}" for k in list(history.keys()) + [k2]])
             requests.append((line, len(pre_ops) + 1, obs_ra["outs"], obs_ra["file"], {"mode": "r,a+put", **tag}))
             ukvlib.oracle_append(ctx, obs_ra, committed, s["session"], (k2, v2), {"mode": "r,a+put", **tag})
+            # ---------- (b'') ONE handle object does the whole recovery (append, reopen r, reopen a, append) ----------
+            ipath.write_bytes(img)
+            k3, v3 = s["extra2"]
+            allk = list(history.keys()) + [k2]
+            obs_1 = ukvlib.observe_one_object_recovery(ipath, k2, v2, k3, v3, allk)
+            line = ";".join(pre_ops + [f"cut {len(base) + n}", "new 2 a - - -", f"put 2 {hx(k2)} {hx(v2)}", "close 2", "reopen 2 r", "keys 2"] +
+                            [f"get 2 {hx(k)}" for k in allk] +
+                            ["close 2", "reopen 2 a", f"put 2 {hx(k3)} {hx(v3)}", "close 2", "new 3 r - - -", "keys 3"] +
+                            [f"get 3 {hx(k)}" for k in allk + [k3]])
+            requests.append((line, len(pre_ops) + 1, obs_1["outs"], obs_1["file"], {"mode": "one-object", **tag}))
+            hist2 = dict(s["session"]) | {k2: v2}
+            ukvlib.oracle_append(ctx, obs_1, committed, list(hist2.items()), (k3, v3), {"mode": "one-object", **tag})
             ctx.count("images")
         # ---------- (c) second crash: the recovery session (reopen a + 2 puts) dies at every offset ----------
         sub = [0, total // 2, max(total - 3, 0)] if ctx.quick() else list(range(0, total + 1, max(1, total // 12)))
